@@ -240,6 +240,34 @@ func init() {
 		}
 		return w1 + " " + wo1 + " " + hx(lt.GetEnsureWithoutSdf())
 	}
+	// gopts.run <gopNum> <cap> <ev,ev,...>  =>  <gop>/<gop>/... (each the items joined by '.') of a remux.GopCacheMpegts
+	// events: b:<hex> a frame at a GOP boundary, n:<hex> another frame, c = Clear() (the input ended)
+	ops["gopts.run"] = func(a []string) string {
+		gc := remux.NewGopCacheMpegts("uk", atoi(a[0]), atoi(a[1]))
+		for _, e := range strings.Split(a[2], ",") {
+			f := strings.Split(e, ":")
+			switch f[0] {
+			case "b":
+				gc.Feed(unhx(f[1]), true)
+			case "n":
+				gc.Feed(unhx(f[1]), false)
+			case "c":
+				gc.Clear()
+			}
+		}
+		var gops []string
+		for i := 0; i < gc.GetGopCount(); i++ {
+			var it []string
+			for _, b := range gc.GetGopDataAt(i) {
+				it = append(it, hx(b))
+			}
+			gops = append(gops, strings.Join(it, "."))
+		}
+		if len(gops) == 0 {
+			return "-"
+		}
+		return strings.Join(gops, "/")
+	}
 	gens["C01"] = genC01
 	gens["C02"] = genC02
 	gens["C16"] = genC16
@@ -482,8 +510,46 @@ func c02Stream(r *Rng, g *c01Gen, shape int, changes bool) {
 	}
 }
 
+// genGopTs: the HTTP-TS GOP cache alone: rings of every size wrapping several times, frame caps, Clear() between inputs
+func genGopTs(g *G, n int) {
+	r := g.rng
+	for i := 0; i < n; i++ {
+		gopNum := r.Pick(0, 1, 1, 2, 3, 5)
+		cap := r.Pick(0, 0, 1, 2, 4)
+		var evs []string
+		k := 0
+		for j := 0; j < 3+r.Intn(40); j++ {
+			k++
+			item := fmt.Sprintf("%04x", k)
+			switch x := r.Intn(12); {
+			case x == 0:
+				evs = append(evs, "c")
+			case x <= 3:
+				evs = append(evs, "b:"+item)
+			default:
+				evs = append(evs, "n:"+item)
+			}
+		}
+		g.L(fmt.Sprintf("gopts-%d", gopNum)).run(fmt.Sprintf("gopts.run %d %d %s", gopNum, cap, strings.Join(evs, ",")))
+	}
+	// the ring of every size filled past a wrap, cleared, and filled again by a second input
+	for gopNum := 0; gopNum <= 4; gopNum++ {
+		var evs []string
+		for j := 0; j < 3*(gopNum+2); j++ {
+			evs = append(evs, fmt.Sprintf("b:a%03x", j), fmt.Sprintf("n:b%03x", j), fmt.Sprintf("n:c%03x", j))
+		}
+		evs = append(evs, "c")
+		for j := 0; j < gopNum+1; j++ {
+			evs = append(evs, fmt.Sprintf("b:d%03x", j), fmt.Sprintf("n:e%03x", j))
+		}
+		g.L("gopts-wrap-clear").run(fmt.Sprintf("gopts.run %d 0 %s", gopNum, strings.Join(evs, ",")))
+		g.L("gopts-wrap-clear").run(fmt.Sprintf("gopts.run %d 2 %s", gopNum, strings.Join(evs, ",")))
+	}
+}
+
 func genC02(g *G) {
 	r := g.rng
+	genGopTs(g, g.scale(100, 3000))
 	for i := 0; i < g.scale(400, 15000); i++ {
 		gen := &c01Gen{r: r}
 		shape := r.Pick(0, 0, 1, 2, 3, 4, 5)
@@ -510,6 +576,7 @@ func genC02(g *G) {
 // C16: repeated publish / unpublish with changing codecs while subscribers stay attached or join in between.
 func genC16(g *G) {
 	r := g.rng
+	genGopTs(g, g.scale(100, 3000))
 	for i := 0; i < g.scale(300, 12000); i++ {
 		gen := &c01Gen{r: r}
 		cfg := fmt.Sprintf("rc=1,fc=1,rg=%d,rk=%d,fg=%d,fk=%d,ms=%d,rec=%d", r.Pick(0, 1, 2), r.Pick(0, 0, 2), r.Pick(0, 1, 2), r.Pick(0, 0, 2), r.Pick(0, 0, 200, 8192), r.Pick(0, 1))
